@@ -1,0 +1,61 @@
+//go:build verif
+
+// Contracts for package mvs (comment-only; read by /verif/govc, ignored by the compiler).
+// dawn's adapter to github.com/pgavlin/mvs: the algorithm itself is the dependency's; what is under
+// contract here is that the adapter meets the interface the library documents for Reqs.
+package mvs
+
+// ---------------------------------------------------------------- C10: version order
+
+// cmpVersion is semver order with the root's "" on top.
+//@ func mvs.cmpVersion
+//@   ensures range: result == -1 || result == 0 || result == 1
+//@   ensures root-greatest: (v2 == "" ==> result == ite(v1 == "", 0, -1)) && ((v1 == "" && v2 != "") ==> result == 1)
+//@   ensures agrees-with-semver: (v1 != "" && v2 != "") ==> result == semcmp(v1, v2)
+
+// Max returns one of its arguments, the greater one; "" (the root) beats everything and every valid
+// version beats "none" (the two clauses the library documents).
+//@ func (*mvs.Reqs).Max
+//@   ensures picks-one: result == v1 || result == v2
+//@   ensures root-wins: (v1 == "" || v2 == "") ==> result == ""
+//@   ensures greater: (v1 != "" && v2 != "") ==> result == ite(semcmp(v1, v2) == -1, v2, v1)
+//@   ensures beats-none: (v1 != "" && semvalid(v1) && v2 != "" && !semvalid(v2)) ==> result == v1
+
+// Required: the root's requirement list is exactly the root project's list.
+//@ func (*mvs.Reqs).Required
+//@   requires r != nil && r.root != nil
+//@   ensures root-list: p.Path == "" ==> (result.1 == nil && result.0 == r.root.Requirements)
+//@   modifies heap, smap
+
+//@ func (*mvs.Resolver).resolveProject
+//@   ensures found: result.1 == nil ==> result.0 != nil
+//@   trusted
+//@   modifies heap, smap
+//@ func (*mvs.Resolver).listVersions
+//@   trusted
+//@   modifies heap, smap
+
+// ---------------------------------------------------------------- C11: Upgrade / Previous
+
+// Upgrade: the newest listed version of the same major, never below the one asked about.
+//@ func (*mvs.Reqs).Upgrade
+//@   requires r != nil
+//@   ensures root-unchanged: p.Path == "" ==> (result.1 == nil && result.0 == p)
+//@   ensures same-project: (p.Path != "" && result.1 == nil) ==> result.0.Path == p.Path
+//@   ensures not-lower: (p.Path != "" && result.1 == nil) ==> semcmp(result.0.Version, p.Version) >= 0
+//@   ensures newest: (p.Path != "" && result.1 == nil) ==> (forall j: int :: 0 <= j && j < len(versions) && semmajor(versions[j].Version) == semmajor(p.Version) ==> semcmp(versions[j].Version, result.0.Version) <= 0)
+//@   modifies heap, smap
+//@   loop 0: invariant semcmp(selected, p.Version) >= 0
+//@   loop 0: invariant forall j: int :: 0 <= j && j <= rangeindex && semmajor(versions[j].Version) == semmajor(p.Version) ==> semcmp(versions[j].Version, selected) <= 0
+
+// Previous: the newest listed version of the same major strictly below the one asked about, or
+// "none" when there is none (the library's downgrade loop stops only on "none").
+//@ func (*mvs.Reqs).Previous
+//@   requires r != nil
+//@   ensures root-unchanged: p.Path == "" ==> (result.1 == nil && result.0 == p)
+//@   ensures same-project: (p.Path != "" && result.1 == nil) ==> result.0.Path == p.Path
+//@   ensures none: (p.Path != "" && result.1 == nil && (forall j: int :: 0 <= j && j < len(versions) ==> !(semmajor(versions[j].Version) == semmajor(p.Version) && semcmp(versions[j].Version, p.Version) < 0 && semvalid(versions[j].Version)))) ==> result.0.Version == "none"
+//@   ensures below: (p.Path != "" && result.1 == nil && result.0.Version != "none") ==> semcmp(result.0.Version, p.Version) < 0
+//@   modifies heap, smap
+//@   loop 0: invariant selected == "none" || semcmp(selected, p.Version) < 0
+//@   loop 0: invariant (forall j: int :: 0 <= j && j <= rangeindex ==> !(semmajor(versions[j].Version) == semmajor(p.Version) && semcmp(versions[j].Version, p.Version) < 0 && semvalid(versions[j].Version))) ==> selected == "none"
